@@ -4,8 +4,10 @@ THEOREMS  lean/WrapModel/Props/C09.lean (well-formedness judgement on the IR / p
 TIE       byte-exact generated text vs the model
 ORACLE    structural well-formedness of the implementation's text (balanced brackets outside literals, lambda
           parameter count = py::arg count, module variables declared before use, no template parameter left);
-          thorough tier: g++ -fsyntax-only on generated translation units with a generated header
-PARTIAL   "is well-formed C++" is a modelled judgement; the compiler runs validate it on samples
+          COMPILER: closed-world interface files are generated together with a conforming C++ library header
+          (harness/c09_compile.py); the implementation's translation unit must pass `g++ -std=c++17 -fsyntax-only`
+          against pybind11 and that header (16 units in the quick tier, 400 in the thorough tier)
+PARTIAL   "is well-formed C++" for open-world inputs is a modelled judgement; the compiler decides it on the closed-world stream
 """
 import re
 
@@ -37,12 +39,117 @@ def replay_finding(e):
     return st == "ok" and w["bad_fragment"] in out
 
 
+def compile_stream(ctx, n, off=0, collect=True):
+    import c09_compile
+    from common import REPO
+    first = None
+    for r in fw.run_cases(c09_compile.compile_case, [(ctx.seed + off, REPO)] * n):
+        if "crash" in r:
+            raise RuntimeError(r["crash"])
+        if collect:
+            ctx.case("compile" + r["text"], sample=dict(stream="compile", text=r["text"][:400]))
+            ctx.count("compiled_units" if r["compiled"] else ("compile_generator_rejected" if r["gen_error"] else "compile_failed"))
+            for k, v in r["stats"].items():
+                ctx.count("compile_" + k, v)
+        if r["gen_error"]:
+            v = dict(what="generation fails on a closed-world interface file: " + r["gen_error"], input=r["text"])
+            first = first or v
+            if collect:
+                ctx.spec_fail(v["what"], input=r["text"])
+        elif r["bad"]:
+            first = first or dict(r["bad"])
+            if collect:
+                b = dict(r["bad"])
+                ctx.spec_fail(b.pop("what"), **b)
+        elif collect:
+            ctx.traces_validated += 1
+    return first
+
+
+def sources_case(idx, payload):
+    """PybindWrapper.wrap(sources, out): the sub-module initialisers declared and called in the main translation unit are
+    named after the interface FILES, whatever their extension (.i, .h, .hpp — the README uses .h): they must be C++ identifiers"""
+    import os
+    import random
+    import shutil
+    import tempfile
+    from common import classify_exc
+    from gtwrap.pybind_wrapper import PybindWrapper
+    seed, _ = payload
+    rng, m, text = streams.gen_coherent(seed + 606, idx, dict(max_decls=3, typedef_same_ns=True, unique_ns=True), style='space')
+    stems = rng.sample(["dynamics", "planning", "nav", "geo_metry", "x1", "slam", "basis", "ii"], rng.randint(1, 3))
+    exts = [rng.choice([".i", ".h", ".hpp", ".interface", ".i"]) for _ in stems]
+    res = dict(idx=idx, text=text, sources=[a + b for a, b in zip(stems, exts)], bad=None, ran=False)
+    d = tempfile.mkdtemp(prefix="verif_c09s_")
+    cwd = os.getcwd()
+    try:
+        main_p = os.path.join(d, "main_module" + rng.choice([".i", ".h"]))
+        open(main_p, "w", encoding="utf-8").write(text)
+        subs = []
+        for a, b in zip(stems, exts):
+            sp = os.path.join(d, a + b)
+            open(sp, "w", encoding="utf-8").write("class Sub_%s { Sub_%s(); };\n" % (a, a))
+            subs.append(sp)
+        w = PybindWrapper(module_name="m", top_module_namespaces=[''], use_boost_serialization=False, ignore_classes=[],
+                          module_template=streams.TPL_MIN)
+        os.chdir(d)
+        try:
+            w.wrap([main_p] + subs, "out.cpp")
+        except Exception as e:  # noqa
+            res["err"] = classify_exc(e)
+            return res
+        finally:
+            os.chdir(cwd)
+        out = open(os.path.join(d, "out.cpp"), encoding="utf-8").read()
+        res["ran"] = True
+        want = impl_pybind(text, streams.TPL_MIN, "m", [''], False, [], stems)
+        for st in stems:
+            decl, call = "void %s(py::module_ &);" % st, "%s(m_);" % st
+            if decl not in out or call not in out:
+                res["bad"] = dict(what="the initialiser of sub-module file `%s` is not declared and called under a C++ identifier" % st,
+                                  input=text, sources=res["sources"], fragment=[l for l in out.splitlines() if st in l][:4])
+                return res
+        if want[0] == "ok" and want[1] != out:
+            res["bad"] = dict(what="wrap(sources) does not produce the translation unit of wrap_file(main, submodules = file stems)",
+                              input=text, sources=res["sources"], **streams.first_diff(want[1], out))
+            return res
+        dd = direct(out, None)
+        if dd:
+            res["bad"] = dict(what="generated translation unit is not well-formed: " + dd, input=text, sources=res["sources"])
+    finally:
+        os.chdir(cwd)
+        shutil.rmtree(d, ignore_errors=True)
+    return res
+
+
+def sources_stream(ctx, n, off=0, collect=True):
+    first = None
+    for r in fw.run_cases(sources_case, [(ctx.seed + off, None)] * n):
+        if "crash" in r:
+            raise RuntimeError(r["crash"])
+        if collect:
+            ctx.case("sources" + r["text"] + str(r["sources"]), nontrivial=r["ran"], sample=None)
+            ctx.count("wrap_sources_runs" if r["ran"] else "wrap_sources_rejected")
+        if r["bad"]:
+            first = first or dict(r["bad"])
+            if collect:
+                b = dict(r["bad"])
+                ctx.spec_fail(b.pop("what"), **b)
+        elif collect and r["ran"]:
+            ctx.traces_validated += 1
+    return first
+
+
 def main(ctx):
     search = pc.run(ctx, THEOREM_MODULES, pj.normalize_ws, direct,
                     "generated translation unit differs from the well-formed one",
                     "generated translation unit is not well-formed",
                     cfg_kw=dict(typedef_same_ns=True, unique_ns=True, c02_safe=True),
-                    extra_streams=[(dict(p_template=0.9, max_members=8, max_decls=3), 0.5)])
+                    extra_streams=[(dict(p_template=0.9, max_members=8, max_decls=3), 0.5),
+                                   # typedefs placed in an enclosing scope, before the namespace of their template
+                                   (dict(typedef_enclosing=0.9, p_template=0.7, n_typedefs=3, extra_kinds=['ns', 'ns', 'cls'], max_depth=3), 0.4)])
+    compile_stream(ctx, ctx.scale(16, 400))
+    sources_stream(ctx, ctx.scale(24, 300))
     for e in ctx.known:
         still = replay_finding(e)
         if e.get("kind") == "fixed":
@@ -50,8 +157,9 @@ def main(ctx):
                 ctx.spec_fail("a defect recorded as fixed is back: " + e["what"], **e["witness"])
         elif still:
             ctx.known_hit(e)
-    return fw.finish(ctx, search=search, assumptions=[
-        "well-formedness is a modelled judgement (WellFormedTU), not the C++ standard",
+    return fw.finish(ctx, search=lambda c: search(c) or sources_stream(c, c.scale(24, 200), off=3, collect=False) or compile_stream(c, c.scale(48, 300), off=7, collect=False), assumptions=[
+        "for open-world inputs well-formedness is a modelled judgement (WellFormedTU), not the C++ standard; the closed-world "
+        "stream is decided by g++ 12 against pybind11 2.13 and a generated conforming header",
         "hand-written model of pybind_wrapper.py, tied byte-exactly on generated inputs"])
 
 
